@@ -600,6 +600,8 @@ def _get_fcp(
 ) -> Result[v2.FcpV2, FcpError]:
     source = filesystem_proxy.read(filename)
     logger.add_source(filename.name, source)
+    # an imported module may have the same file name as the schema itself
+    logger.add_source(str(filename), source)
     try:
         fcp_ast = fcp_parser.parse(source)
     except UnexpectedInput as e:
